@@ -702,6 +702,10 @@ func (u *Unit) box(st *State, v Term, t types.Type) Term {
 	u.Axiom(Eq(App("tag", SInt, r), IntLit(int64(id))))
 	u.Axiom(Eq(App(un, so, r), v))
 	u.Axiom(Neq(r, NilV))
+	if _, isPtr := t.Underlying().(*types.Pointer); isPtr {
+		// an interface holding a pointer refers to the pointer's object
+		u.Axiom(Eq(App("aobj", SV, r), App("aobj", SV, v)))
+	}
 	u.rawDecl("typecomment:"+fn, fmt.Sprintf("; %s boxes %s", fn, typeKey(t)))
 	return r
 }
